@@ -41,7 +41,8 @@ theorem toLower_toUpper (c : Char) : c.toUpper.toLower = c.toLower := by
       simp only [UInt32.le_iff_toNat_le, seval] at hl
       simp only [UInt32.toNat_add, seval]; omega
     have hup : (c.val + ('A'.val - 'a'.val)) ≥ 'A'.val ∧ (c.val + ('A'.val - 'a'.val)) ≤ 'Z'.val := by
-      simp only [UInt32.le_iff_toNat_le, ge_iff_le, hv, seval] at hl ⊢; omega
+      simp only [seval] at hv
+      simp only [UInt32.le_iff_toNat_le, ge_iff_le, seval] at hl ⊢; omega
     simp only [hup, and_self, dite_true]
     apply Char.ext
     apply UInt32.toNat_inj.mp
@@ -58,7 +59,8 @@ theorem isLower_toUpper_false {c : Char} (h : c.isLower = true) : c.toUpper.isLo
     simp only [UInt32.le_iff_toNat_le, seval] at hl
     simp only [UInt32.toNat_add, seval]; omega
   simp only [Char.toUpper, hl, and_self, dite_true, Char.isLower, Bool.and_eq_false_iff, decide_eq_false_iff_not]
-  simp only [UInt32.le_iff_toNat_le, ge_iff_le, hv, seval] at hl ⊢
+  simp only [seval] at hv
+  simp only [UInt32.le_iff_toNat_le, ge_iff_le, seval] at hl ⊢
   omega
 
 theorem toUpper_inj_of_isLower {c d : Char} (hc : c.isLower = true) (hd : d.isLower = true)
@@ -186,10 +188,7 @@ theorem mem_removeReserved {pool kw : List String} {w : String} :
 
 theorem mem_removeReservedFixed {pool kw : List String} {w : String} :
     w ∈ removeReservedFixed pool kw ↔ w ∈ pool ∧ lower w ∉ kw.map lower := by
-  simp only [removeReservedFixed, List.mem_filter, Bool.not_eq_eq_eq_not, Bool.not_true,
-    List.contains_eq_false, and_congr_right_iff]
-  intro _
-  simp
+  simp [removeReservedFixed, List.mem_filter]
 
 /-- case-insensitive removal keeps no word any of whose spellings is a keyword — for every pool
     and every keyword list -/
